@@ -17,7 +17,7 @@ RULE = ("M {1,2,5} x backlog {M+1, 3M, 50} x durations {0, 1ms, 1s, 6s} x tasks_
         "fingerprint = (broker, M, backlog, duration, tasks_limit, queues) | (plugin, sequence); trivial = none")
 ASSUMPTIONS = ["Redis and RabbitMQ are wire-level fakes", "virtual time; run() must return within longest actor + graceful period + 10 s after the M-th completion"]
 EVAL_COUNTER = "runs_judged"
-REQUIRED = ["runs_judged", "leftovers_checked", "plugin_enqueues", "runs_limit_lt_backlog_concurrent", "late_arrival_runs", "runs_with_due_recurring_jobs"]
+REQUIRED = ["runs_judged", "leftovers_checked", "plugin_enqueues", "runs_limit_lt_backlog_concurrent", "late_arrival_runs", "runs_with_due_recurring_jobs", "runs_with_a_failing_result_store_inside_the_budget"]
 CASE_TIMEOUT = 150
 
 
@@ -38,6 +38,12 @@ def gen_cases(tier, seed):
             cases.append({"type": "limit", "kind": kind, "M": M, "backlog": backlog if rnd.random() < 0.7 else M, "d": d, "tl": tl, "nq": nq, "seed": rnd.randrange(10**6), "late": rnd.random() < 0.5,
                           "leak": kind != "rabbit" and rnd.random() < 0.35,  # (on RabbitMQ a leaked cancellation shrinks the prefetch window: C09's finding)
                           "latency": None if kind == "mem" else rnd.choice([None, 0.002])})
+    # an execution of the budget ends with an error of the worker's own bookkeeping (its result cannot be stored: the
+    # connection has no results broker) while other executions of the budget are still running: run() waits for them
+    for kind in ("mem", "redis", "rabbit"):
+        for M, tl, dd in (((2, 2, 1.0), (3, 1000, 6.0)) if tier == "quick" else ((2, 2, 1.0), (3, 1000, 6.0), (2, 1000, 0.25), (5, 5, 1.0), (3, 3, "mixed"))):
+            cases.append({"type": "limit", "kind": kind, "M": M, "backlog": M + 3, "d": dd, "tl": tl, "nq": 1, "seed": rnd.randrange(10**6), "late": False, "leak": False,
+                          "latency": None if kind == "mem" else 0.002, "store_crash": True})
     for c in cases:
         # every third backlog: a third of its jobs are recurring ones whose first slot comes up just before the worker starts
         c["recurring_due"] = c["seed"] % 3 == 0
@@ -55,7 +61,7 @@ async def limit_scenario(loop, case, out, stats, fps, samples):
 
     kind, M, backlog, d, tl, nq = case["kind"], case["M"], case["backlog"], case["d"], case["tl"], case["nq"]
     rnd = random.Random(case["seed"])
-    w = World(loop, kind, converter="basic", seed=case["seed"], latency=case["latency"])
+    w = World(loop, kind, converter="basic", seed=case["seed"], latency=case["latency"], result_bucket=not case.get("store_crash"))
     try:
         await w.open()
         r = w.router()
@@ -91,7 +97,13 @@ async def limit_scenario(loop, case, out, stats, fps, samples):
 
                 kwj = {"deferred_until": _dt.now() + timedelta(seconds=0.05 + 0.01 * i), "deferred_by": timedelta(hours=1)}
                 recurring_due.add(id_)
-            await w.job(f"act{qi}", id_, script, queue=queues[qi], retries=2, timeout=timedelta(seconds=60), store_result=False, priority=prio[id_], **kwj).enqueue()
+            crash = bool(case.get("store_crash")) and i == 0
+            if crash:
+                # (first in line, over well before the others, asks for its result to be kept)
+                script, prio[id_], kwj = {"do": "ok", "d": 0.3 * dmax, "ret": 1}, PrioritiesT.HIGH, {}
+                recurring_due.discard(id_)
+                stats["runs_with_a_failing_result_store_inside_the_budget"] += 1
+            await w.job(f"act{qi}", id_, script, queue=queues[qi], retries=2, timeout=timedelta(seconds=60), store_result=crash, priority=prio[id_], **kwj).enqueue()
         if recurring_due:
             await asyncio.sleep(1.2)  # every first slot has come up (Redis scores are whole seconds)
             stats["runs_with_due_recurring_jobs"] += 1
@@ -184,6 +196,12 @@ async def limit_scenario(loop, case, out, stats, fps, samples):
             out.append(V("overshoot", kind, sub, f"messages_limit={M}, backlog {backlog}, actor duration {d}s, tasks_limit={tl}, {nq} queue(s): {len(starts)} actor executions started (M-th completion at {t_mth}, {len(late)} started after it)"))
         if returned and not raised and len(exits) < min(M, backlog) and len(starts) <= M:
             out.append(V("no_return", kind, "returned-early", f"run() returned after {len(exits)} completions with messages_limit={M}"))
+        # every execution of the budget was allowed to finish (graceful time exceeds every actor here): none was cut short
+        ended = {e["id"] for e in w.log.events if e.get("k") in ("actor_end", "actor_raise")}
+        cut = sorted({e["id"] for e in exits} - ended)
+        if cut:
+            out.append(V("no_return", kind, "returned-with-executions-cut-short", f"messages_limit={M}, tasks_limit={tl}: executions of {cut[:4]} were started within the budget and cancelled before they finished "
+                         f"(run() returned {t_ret - t0:.3f}s after it started, graceful_shutdown_time {graceful}s, actor duration {d}s); they are at {[snap_ for snap_ in [w.rig.snapshot().get(i) for i in cut[:4]]]}"))
         # leftovers: never started => queued, untouched
         started = {s["id"] for s in starts}
         snap = w.rig.snapshot()
